@@ -536,7 +536,7 @@ def shard(member, acc):
 
 
 def run(tier):
-    mem = [("corpus",) + m + (tier,) for m in C.members(tier)]
+    mem = [("corpus",) + m + (tier,) for m in C.members_bounded(tier, 4)]
     for i, t in enumerate(LOGGER_TEXTS):
         mem.append(("fixed", "logger-%d" % i, LOGGER_SCHEMA, [t], tier))
     for i, t in enumerate(MAPPING_TEXTS):
